@@ -21,7 +21,7 @@
 using pbt::Ctx; using pbt::Bytes;
 
 static void prop(Ctx &c) {
-    gen::ZFileOpts o; o.max_chunks = c.tier ? 40 : 16; o.max_chunk = c.tier ? 6000 : 1200; o.allow_empty = c.rarely(12);
+    gen::ZFileOpts o; o.max_chunks = c.tier ? 40 : 16; o.max_chunk = c.tier ? 6000 : 1200; o.allow_empty = c.rarely(12); o.big_rate = 12;
     gen::ZParams qb = gen::zparams(c, o);
     gen::ZFile B = gen::zfile_build(c, qb);
     // ---- A
